@@ -70,6 +70,9 @@ Theorem C15_wf_preserved_limit : forall f n p c, wf f -> limit f n = Ok p -> wf 
 Proof. exact frame_limit. Qed.
 Theorem C15_wf_preserved_distinct : forall f p c, wf f -> distinct f = Ok p -> wf (fst (finish c p)).
 Proof. exact frame_distinct. Qed.
+Theorem C15_wf_preserved_dropDuplicates : forall f cols p c,
+  wf f -> drop_duplicates f cols = Ok p -> wf (fst (finish c p)).
+Proof. exact frame_drop_duplicates. Qed.
 (* for every per-element sampler decision (Bernoulli: 0/1, Poisson: any multiplicity) *)
 Theorem C15_wf_preserved_sample : forall mult f p c, wf f -> sample_with mult f = Ok p -> wf (fst (finish c p)).
 Proof. exact frame_sample. Qed.
